@@ -465,7 +465,7 @@ def account(ctx, case, branches):
 
 def run(ctx):
     rng = ctx.rng
-    for _ in range(ctx.budget(3000, 56000)):
+    for _ in range(ctx.budget(2800, 56000)):
         case = G.gen_case(rng)
         branches = execute(ctx, case)
         if branches is not None:
